@@ -12,7 +12,7 @@ from .. import c17_drive as D
 from .. import c17_mon as M
 
 PROP = 'C17'
-READY = False
+READY = True
 PROPS_MODULE = 'C17'
 MODEL_TARGETS = ['theories/Case_C17.vo']
 HEADER = ('From Coq Require Import List NArith. Import ListNotations.\n'
@@ -150,7 +150,7 @@ def gen_exhaustive(tier, seed):
     with mp.get_context('fork').Pool(C.NPROC) as pool:
         outs = pool.map(_explore, jobs, chunksize=1)
     out = []
-    budget = 260 if quick else 2500          # per job
+    budget = 260 if quick else 1500          # per job
     for cs in outs:
         if len(cs) > budget:
             step = len(cs) / budget
@@ -275,6 +275,28 @@ def distribution(cases, obs):
     return d
 
 
-LEVEL_TEXT = 'under construction'
-LEVEL_NOTE = 'under construction'
-TECHNIQUE = 'Coq proof + differential correspondence under gated threads'
+LEVEL_TEXT = ('ensure_aw / run_aw_threadsafe / loop_in_thread / _get_loop_lock are modelled as a small-step machine over the '
+              'target loop (who is inside run_forever), the per-loop lock table with its creation lock, lock owners, the '
+              'awaitables (scripted, stepped only by the thread running the loop) and one program counter per caller, pool '
+              'thread and loop_in_thread user (coq/theories/XLoop.v; a validator: step : state -> event -> option state).  '
+              'props/C17.v proves for ALL accepted logs (all schedules, any number of callers, any scripts/forms/mode): '
+              'one_runner (at most one thread inside the loop, a pool thread that runs it owns the loop\'s lock, every entry '
+              'found the loop idle, no "already running" error), lock_unique (Lock() called at most once, every lock returned '
+              'or acquired is that one), result_transparent + closed_target_raises (each caller gets exactly its own awaitable\'s '
+              'value/exception identity; closed target <=> RuntimeError), evaluated_on_target (every awaitable step on L by the '
+              'thread inside it), loop_in_thread_contract (+ loop_in_thread_returns_after_running for the racing start).  '
+              'Liveness in no-deadlock form: completes_own, completes_forever, completes_borrow proved unconditionally; the general '
+              'statement is REFUTED by a computed witness (stranded_refuted / liveness_refuted = known finding K1, the same '
+              'schedule the real code deadlocks on) and PROVED under the explicit hypothesis no_foreign_submit_to_borrowed_loop '
+              '(completes_unless_submitted_to_borrowed_loop).  Tied to /repo by running the real helpers under gated threads on '
+              'all schedules (preemption-bounded) of 2 callers in 5 modes and random schedules of 3 callers; the model must accept '
+              'every observed log event by event and agree on ok/deadlock (deadlock <=> nothing enabled in the model, and '
+              'enabled_is_complete shows that means no operation at all); the monitor decides the property on the log.')
+LEVEL_NOTE = ('safety: full (theorems over all accepted logs); liveness: progress (no-deadlock) form only, three cases unconditional, '
+              'general statement refuted -> K1 (reported as KNOWN-FINDING, any other stuck or incorrect scenario is a VIOLATION); '
+              'result_transparent / evaluated_on_target follow the model\'s asyncio assumptions (tasks are stepped by the loop\'s '
+              'thread; futures deliver the awaitable\'s own outcome) which the correspondence validates on every case; no axioms')
+TECHNIQUE = ('Coq proof (two inductive invariants over all accepted event lists + case analysis for progress + vm_compute witness '
+             'for K1) + differential correspondence under gated threads, validated event by event inside Coq by vm_compute')
+CLEAN_FOR_THOROUGH = ['theories/XLoop.vo', 'theories/XLoopInv.vo', 'theories/XLoopSafe.vo', 'theories/XLoopLive.vo',
+                      'theories/XLoopProg.vo', 'theories/XLoopK1.vo', 'theories/Case_C17.vo']
